@@ -75,6 +75,19 @@ func (p *Prog) callsIn(fn *ssa.Function, names ...string) []ssa.CallInstruction 
 	return out
 }
 
+// callsOf lists every call instruction of fn in block order.
+func callsOf(fn *ssa.Function) []ssa.CallInstruction {
+	var out []ssa.CallInstruction
+	for _, b := range fn.Blocks {
+		for _, in := range b.Instrs {
+			if ci, ok := in.(ssa.CallInstruction); ok {
+				out = append(out, ci)
+			}
+		}
+	}
+	return out
+}
+
 // withClosures returns fn and every function literal nested in it.
 func withClosures(fn *ssa.Function) []*ssa.Function {
 	out := []*ssa.Function{fn}
@@ -389,16 +402,28 @@ func (p *Prog) callGuard(label string, names []string, idx int, want FactKind, e
 // was entered through, so that the If only follows the consistent successor. This
 // removes the commonest class of infeasible paths without losing any feasible one.
 func reach(fn *ssa.Function, starts []*ssa.BasicBlock, deleted map[edge]bool, pred map[int]int) map[int]bool {
+	seen, _ := reachVia(fn, starts, deleted, pred, nil, nil, nil)
+	return seen
+}
+
+// reachVia is reach in two legs with the flag memory carried across: the first leg (deleted,
+// pred) runs from starts; whatever leaves block via continues as the second leg (deleted2,
+// pred2). seen2 holds the blocks entered on the second leg - via itself only if it is entered
+// again. With via == nil it is plain reach.
+func reachVia(fn *ssa.Function, starts []*ssa.BasicBlock, deleted map[edge]bool, pred map[int]int, via *ssa.BasicBlock, deleted2 map[edge]bool, pred2 map[int]int) (map[int]bool, map[int]bool) {
 	tracked := trackedPhis(fn)
 	type state struct {
 		b   int
 		env string
+		leg int
 	}
 	seen := map[int]bool{}
+	seen2 := map[int]bool{}
 	seenSt := map[state]bool{}
 	type item struct {
 		b   *ssa.BasicBlock
 		env map[*ssa.Phi]int8
+		leg int
 	}
 	encode := func(env map[*ssa.Phi]int8) string {
 		if len(env) == 0 {
@@ -412,7 +437,7 @@ func reach(fn *ssa.Function, starts []*ssa.BasicBlock, deleted map[edge]bool, pr
 	}
 	var q []item
 	for _, s := range starts {
-		st := state{s.Index, ""}
+		st := state{s.Index, "", 0}
 		if !seenSt[st] {
 			seenSt[st] = true
 			if !seen[s.Index] {
@@ -421,15 +446,22 @@ func reach(fn *ssa.Function, starts []*ssa.BasicBlock, deleted map[edge]bool, pr
 					pred[s.Index] = -1
 				}
 			}
-			q = append(q, item{s, nil})
+			q = append(q, item{s, nil, 0})
 		}
 	}
 	for len(q) > 0 {
 		it := q[0]
 		q = q[1:]
 		b := it.b
+		leg := it.leg
+		if via != nil && b == via {
+			leg = 1
+		}
 		for si, s := range b.Succs {
-			if deleted[edge{b.Index, si}] {
+			if leg == 0 && deleted[edge{b.Index, si}] {
+				continue
+			}
+			if leg == 1 && deleted2[edge{b.Index, si}] {
 				continue
 			}
 			// is this successor consistent with a tracked phi condition?
@@ -471,21 +503,28 @@ func reach(fn *ssa.Function, starts []*ssa.BasicBlock, deleted map[edge]bool, pr
 					break
 				}
 			}
-			st := state{s.Index, encode(env)}
+			st := state{s.Index, encode(env), leg}
 			if seenSt[st] {
 				continue
 			}
 			seenSt[st] = true
-			if !seen[s.Index] {
-				seen[s.Index] = true
-				if pred != nil {
-					pred[s.Index] = b.Index
+			if leg == 0 {
+				if !seen[s.Index] {
+					seen[s.Index] = true
+					if pred != nil {
+						pred[s.Index] = b.Index
+					}
+				}
+			} else if !seen2[s.Index] {
+				seen2[s.Index] = true
+				if pred2 != nil {
+					pred2[s.Index] = b.Index
 				}
 			}
-			q = append(q, item{s, env})
+			q = append(q, item{s, env, leg})
 		}
 	}
-	return seen
+	return seen, seen2
 }
 
 type phiTrack struct {
@@ -853,16 +892,30 @@ func (p *Prog) knownNonNilAt(fn *ssa.Function, v ssa.Value, b *ssa.BasicBlock) b
 	sv := stripConv(v)
 	// a variable that lives in a cell (named result, captured variable): every load of the
 	// cell stands for it, as long as nothing is stored into the cell between test and use
+	// ... or in a field of a local struct (a parameter struct taken by value is spilled to one)
 	var cell *ssa.Alloc
+	field := -1
 	if l, ok := sv.(*ssa.UnOp); ok && l.Op == token.MUL {
 		cell, _ = l.X.(*ssa.Alloc)
+		if fa, ok := l.X.(*ssa.FieldAddr); ok {
+			if a, ok := fa.X.(*ssa.Alloc); ok && !allocEscapes(a) {
+				cell, field = a, fa.Field
+			}
+		}
 	}
 	sameCell := func(x ssa.Value) bool {
 		if cell == nil {
 			return false
 		}
 		l, ok := stripConv(x).(*ssa.UnOp)
-		return ok && l.Op == token.MUL && l.X == ssa.Value(cell)
+		if !ok || l.Op != token.MUL {
+			return false
+		}
+		if field >= 0 {
+			fa, ok := l.X.(*ssa.FieldAddr)
+			return ok && fa.X == ssa.Value(cell) && fa.Field == field
+		}
+		return l.X == ssa.Value(cell)
 	}
 	g := Guard{Match: func(f Fact) bool { return f.Kind == NonNil && (f.V == v || f.V == sv || sameCell(f.V)) }}
 	del := passEdges(fn, g)
@@ -879,11 +932,20 @@ func (p *Prog) knownNonNilAt(fn *ssa.Function, v ssa.Value, b *ssa.BasicBlock) b
 			starts = append(starts, fn.Blocks[e.from].Succs[e.succ])
 		}
 		after := reach(fn, starts, nil, nil)
+		var stores []*ssa.Store
 		for _, r := range *cell.Referrers() {
-			st, ok := r.(*ssa.Store)
-			if !ok || st.Addr != ssa.Value(cell) {
-				continue
+			if st, ok := r.(*ssa.Store); ok && st.Addr == ssa.Value(cell) {
+				stores = append(stores, st)
 			}
+			if fa, ok := r.(*ssa.FieldAddr); ok && field >= 0 && fa.Field == field {
+				for _, r2 := range *fa.Referrers() {
+					if st, ok := r2.(*ssa.Store); ok && st.Addr == ssa.Value(fa) {
+						stores = append(stores, st)
+					}
+				}
+			}
+		}
+		for _, st := range stores {
 			sb := st.Block()
 			if !after[sb.Index] {
 				continue
@@ -900,6 +962,156 @@ func (p *Prog) knownNonNilAt(fn *ssa.Function, v ssa.Value, b *ssa.BasicBlock) b
 		}
 	}
 	return true
+}
+
+// allocEscapes: the address of the local (or of one of its fields) is used for anything but
+// loads, stores and field selection - it may be written through an alias.
+func allocEscapes(a *ssa.Alloc) bool {
+	if a.Heap {
+		return true
+	}
+	var visit func(v ssa.Value) bool
+	visit = func(v ssa.Value) bool {
+		for _, r := range *v.Referrers() {
+			switch r := r.(type) {
+			case *ssa.UnOp:
+				if r.Op != token.MUL {
+					return true
+				}
+			case *ssa.Store:
+				if r.Val == v {
+					return true
+				}
+			case *ssa.FieldAddr:
+				if visit(r) {
+					return true
+				}
+			case *ssa.DebugRef:
+			default:
+				return true
+			}
+		}
+		return false
+	}
+	return visit(a)
+}
+
+// inputOf: v is one of fn's own inputs - a parameter (path empty) or a field of a struct the
+// function was given, by value (go/ssa spills it to a local) or by pointer. A rule that means
+// "the blob the caller passed" uses this instead of a parameter position, so that turning a
+// parameter list into a parameter struct leaves it deciding the same thing.
+func inputOf(fn *ssa.Function, v ssa.Value) (param int, path []int, ok bool) {
+	switch v := v.(type) {
+	case *ssa.Parameter:
+		for i, pa := range fn.Params {
+			if pa == v {
+				return i, nil, true
+			}
+		}
+	case *ssa.Field:
+		if i, pp, ok := inputOf(fn, v.X); ok {
+			return i, append(append([]int{}, pp...), v.Field), true
+		}
+	case *ssa.UnOp:
+		if v.Op == token.MUL {
+			return inputAddr(fn, v.X)
+		}
+	}
+	return 0, nil, false
+}
+
+func inputAddr(fn *ssa.Function, addr ssa.Value) (int, []int, bool) {
+	switch a := addr.(type) {
+	case *ssa.FieldAddr:
+		var i int
+		var pp []int
+		ok := false
+		if pa, isP := a.X.(*ssa.Parameter); isP {
+			i, pp, ok = inputOf(fn, pa)
+		} else {
+			i, pp, ok = inputAddr(fn, a.X)
+		}
+		if ok {
+			return i, append(append([]int{}, pp...), a.Field), true
+		}
+	case *ssa.Alloc:
+		// the spill of a by-value parameter: the only store into it is the parameter
+		if allocEscapes(a) {
+			return 0, nil, false
+		}
+		var src ssa.Value
+		n := 0
+		for _, r := range *a.Referrers() {
+			if st, ok := r.(*ssa.Store); ok && st.Addr == ssa.Value(a) {
+				src = st.Val
+				n++
+			}
+		}
+		if n == 1 {
+			if _, isP := src.(*ssa.Parameter); isP && !fieldStored(a) {
+				return inputOf(fn, src)
+			}
+		}
+	}
+	return 0, nil, false
+}
+
+func fieldStored(a *ssa.Alloc) bool {
+	var visit func(v ssa.Value) bool
+	visit = func(v ssa.Value) bool {
+		for _, r := range *v.Referrers() {
+			if fa, ok := r.(*ssa.FieldAddr); ok {
+				for _, r2 := range *fa.Referrers() {
+					if st, ok := r2.(*ssa.Store); ok && st.Addr == ssa.Value(fa) {
+						return true
+					}
+				}
+				if visit(fa) {
+					return true
+				}
+			}
+		}
+		return false
+	}
+	return visit(a)
+}
+
+// actualOf: the caller's value for the callee input (param, path): the argument itself, or what
+// the struct literal passed there holds in that field (nil: not a literal, or the field is left
+// at its zero value).
+func actualOf(call *ssa.CallCommon, param int, path []int) ssa.Value {
+	if param >= len(call.Args) {
+		return nil
+	}
+	v := call.Args[param]
+	for _, f := range path {
+		var lit *ssa.Alloc
+		if l, ok := v.(*ssa.UnOp); ok && l.Op == token.MUL {
+			lit, _ = l.X.(*ssa.Alloc)
+		} else if a, ok := v.(*ssa.Alloc); ok {
+			lit = a
+		}
+		if lit == nil {
+			return nil
+		}
+		var val ssa.Value
+		n := 0
+		for _, r := range *lit.Referrers() {
+			if fa, ok := r.(*ssa.FieldAddr); ok && fa.Field == f {
+				for _, r2 := range *fa.Referrers() {
+					if st, ok := r2.(*ssa.Store); ok && st.Addr == ssa.Value(fa) {
+						val = st.Val
+						n++
+					}
+				}
+			}
+		}
+		if n != 1 {
+			return nil
+		}
+		v = val
+	}
+	return v
 }
 
 // successReturns lists the Return instructions of fn whose error result may be nil
@@ -1272,4 +1484,33 @@ func (p *Prog) trueReturnMissing(fn *ssa.Function, r *ssa.Return, idx int, guard
 		}
 	}
 	return missing, nil
+}
+
+// searchPredicate: v is s[slices.IndexFunc(s, pred)] - the element a library search selected;
+// returns pred (a function of the module), nil otherwise.
+func searchPredicate(v ssa.Value) *ssa.Function {
+	l, ok := stripConv(v).(*ssa.UnOp)
+	if !ok || l.Op != token.MUL {
+		return nil
+	}
+	ia, ok := l.X.(*ssa.IndexAddr)
+	if !ok {
+		return nil
+	}
+	call, ok := ia.Index.(*ssa.Call)
+	if !ok || len(call.Call.Args) != 2 || call.Call.Args[0] != ia.X {
+		return nil
+	}
+	sc := call.Call.StaticCallee()
+	if sc == nil || !strings.HasPrefix(sc.String(), "slices.IndexFunc[") {
+		return nil
+	}
+	switch f := call.Call.Args[1].(type) {
+	case *ssa.MakeClosure:
+		fn, _ := f.Fn.(*ssa.Function)
+		return fn
+	case *ssa.Function:
+		return f
+	}
+	return nil
 }
